@@ -744,6 +744,11 @@ func (f *Frame) enterLoop(li *loopInfo, b *ssa.BasicBlock) {
 		t := f.evalBool(cl.E, f.envFor(env, f.st, cl))
 		e.addObl("inv.init", fmt.Sprintf("loop%d.%d", li.ordinal, i+1), f.curGuard, t, cl.Where, f.clauseProps(cl))
 	}
+	// vacuity guard: the loop must be reachable from the function entry (a modelling gap that
+	// makes it unreachable would discharge every obligation inside it for free)
+	if f.isTop && len(invs) > 0 {
+		e.Covers = append(e.Covers, &Obl{Name: fmt.Sprintf("%s/cover:loop%d", funcKey(e.Top), li.ordinal), Kind: "cover", Func: funcKey(e.Top), Ord: e.tick(), Guard: f.curGuard, Goal: False, Enc: e})
+	}
 	// decreases: remember nothing at entry
 	// 2. havoc phis and modified keys
 	li.phiNew = map[*ssa.Phi]*Val{}
